@@ -77,6 +77,9 @@ CONV = {
     'any(foo,bar,"a b")': lambda rng: rng.choice(["foo", "bar", "a b"]),
     # alternatives that contain URL-reserved and non-ASCII characters are values like any other
     'any("a?b","e#f","50%","\u00fc x","q;r")': lambda rng: rng.choice(["a?b", "e#f", "50%", "\u00fc x", "q;r"]),
+    # alternatives one of which is the beginning of another (the order of the alternation must not decide)
+    "any(new,news,newsletter)": lambda rng: rng.choice(["new", "news", "newsletter"]),
+    "any(ab,a)": lambda rng: rng.choice(["a", "ab"]),
     "uuid": lambda rng: uuid.UUID(int=rng.getrandbits(128)),
     "path": lambda rng: "/".join((seg_text(rng, 1, 3).replace("/", "") or "x") for _ in range(rng.randint(1, 3))),
 }
@@ -580,8 +583,8 @@ def run(shard, rec, rng):
                 # literal text around a variable inside one segment, also characters that mean something to a regular
                 # expression engine (the rule language gives them no meaning)
                 pre = rng.choice(["", "", "", "p-", "x.", "a+", "(", "[", "^", "c|"])
-                suf = rng.choice(["", "", "", ".s", "+s", ")", "]", "$", "*", "|d", "{2}", "?q"]) if c != "path" else ""
-                lit = rng.choice([None, None, "mid"])
+                suf = rng.choice(["", "", "", ".s", "+s", ")", "]", "$", "*", "|d", "{2}", "?q", "|"]) if c != "path" else ""
+                lit = rng.choice([None, None, "mid", "|", "a|b"])  # ("|" is what the routing code itself puts between domain and path)
                 if lit:
                     segs.append(lit)
                 segs.append(f"{pre}<{c}:v{j}>{suf}")
